@@ -8,9 +8,14 @@ package c04
 
 import (
 	"bytes"
+	"compress/gzip"
 	"fmt"
+	"io"
 	"reflect"
+	"runtime"
 	"strings"
+	"sync"
+	"sync/atomic"
 	"testing"
 	"unsafe"
 
@@ -102,6 +107,28 @@ func texts(x interface{}) map[string]string {
 	return out
 }
 
+// withRecords: a container pack and what its record accessor returned.
+type withRecords struct {
+	P    pack.Pack
+	Recs interface{}
+}
+
+// inflated returns the gunzipped form of every byte string in x that is a gzip stream (compressed payloads are part
+// of the input, in another spelling).
+func inflated(x interface{}) []byte {
+	var out []byte
+	for _, t := range texts(x) {
+		if len(t) > 10 && t[0] == 0x1f && t[1] == 0x8b {
+			if zr, err := gzip.NewReader(strings.NewReader(t)); err == nil {
+				if b, err := io.ReadAll(zr); err == nil {
+					out = append(out, b...)
+				}
+			}
+		}
+	}
+	return out
+}
+
 type contentTarget struct {
 	build  func(s *rfl.Stream) []byte
 	decode func(b []byte) interface{}
@@ -125,8 +152,25 @@ func contentTargetOf(name string) *contentTarget {
 					q = sp.New()
 					q.Read(wio.NewDataInputX(b))
 				}
-				if x, ok := q.(*pack.StatGeneralPack); ok {
+				switch x := q.(type) {
+				case *pack.StatGeneralPack:
 					x.GetDataTable()
+				case *pack.LogSinkZipPack:
+					// the records of a (compressed) batch belong to what the decode hands out (a payload that is not a
+					// record stream makes the accessor fail: then there is nothing to look at)
+					var recs interface{}
+					func() {
+						defer func() { recover() }()
+						recs = x.GetRecords()
+					}()
+					return &withRecords{q, recs}
+				case *pack.ZipPack:
+					var recs interface{}
+					func() {
+						defer func() { recover() }()
+						recs = x.GetRecords()
+					}()
+					return &withRecords{q, recs}
 				}
 				return q
 			},
@@ -190,7 +234,9 @@ func runContent(c ContentCase) (res *pbt.Result) {
 	}
 	b := t.build(rfl.NewStream(nil, c.Seed, c.Len))
 	in := append([]byte(nil), b...)
-	got := texts(t.decode(in))
+	dec := t.decode(in)
+	got := texts(dec)
+	hay := append(append([]byte(nil), b...), inflated(dec)...)
 	defaults := map[string]bool{}
 	for _, s := range texts(t.fresh()) {
 		defaults[s] = true
@@ -201,7 +247,7 @@ func runContent(c ContentCase) (res *pbt.Result) {
 			continue
 		}
 		n++
-		if !bytes.Contains(b, []byte(s)) {
+		if !bytes.Contains(hay, []byte(s)) {
 			show := s
 			if len(show) > 60 {
 				show = show[:60] + "…"
@@ -214,7 +260,7 @@ func runContent(c ContentCase) (res *pbt.Result) {
 
 var specContent = pbt.Register(pbt.Spec[ContentCase]{
 	Prop: "C04", Name: "decoded-content-is-input-content", Parallel: 8,
-	Rule:  "a valid encoding B of any pack type or step type (reflectively filled; text records repeat (div, hash) pairs and use hash twins) is decoded after 0-4 other valid encodings of the same type were decoded in the same process; every string and byte string of >= 3 bytes anywhere in the decoded object (exported or unexported fields, nested records, lazily parsed tables) that a freshly constructed object does not also hold must occur as a byte substring of B; non-trivial = at least one such string and at least one earlier decode; distinct by target+message bytes",
+	Rule:  "a valid encoding B of any pack type or step type (reflectively filled; text records repeat (div, hash) pairs and use hash twins) is decoded after 0-4 other valid encodings of the same type were decoded in the same process; every string and byte string of >= 3 bytes anywhere in the decoded object (exported or unexported fields, nested records, lazily parsed tables, the records GetRecords returns for container packs) that a freshly constructed object does not also hold must occur as a byte substring of B (or of the gunzipped form of a compressed payload inside B); non-trivial = at least one such string and at least one earlier decode; distinct by target+message bytes",
 	Quick: 3000, Thorough: 200000,
 	Draw: func(t *rapid.T) ContentCase {
 		return ContentCase{Target: rapid.SampledFrom(contentTargetNames()).Draw(t, "target"), Seed: rapid.Uint64().Draw(t, "seed"),
@@ -231,3 +277,101 @@ func TestDecodedContentIsInputContent(t *testing.T) {
 	}
 	specContent.Check(t)
 }
+
+// ---- concurrent-batch-decodes -------------------------------------------------------------------------
+// Several receivers decode compressed log batches at the same time, each its own: what a receiver gets out of its
+// batch is what is in its batch, whatever the others are doing.
+
+type BatchCase struct {
+	G      int    `json:"g"`      // receivers
+	Recs   int    `json:"recs"`   // records per batch
+	Line   int    `json:"line"`   // bytes per record content
+	Rounds int    `json:"rounds"` // decodes per receiver
+	Seed   uint64 `json:"seed"`
+}
+
+func runBatches(c BatchCase) *pbt.Result {
+	type batch struct {
+		enc  []byte
+		want []string
+	}
+	bs := make([]batch, c.G)
+	for g := range bs {
+		var raw []byte
+		for r := 0; r < c.Recs; r++ {
+			lp := pack.NewLogSinkPack()
+			lp.Category = fmt.Sprintf("cat-%d", g)
+			lp.Line = int64(r)
+			tag := fmt.Sprintf("w%03d-r%04d-%x-", g, r, c.Seed&0xffff)
+			lp.Content = tag + strings.Repeat(string(rune('A'+(g+r)%26)), c.Line)
+			lp.Tags.PutString("receiver", tag)
+			raw = append(raw, pack.ToBytesPack(lp)...)
+			bs[g].want = append(bs[g].want, lp.Content)
+		}
+		zp := pack.NewLogSinkZipPack()
+		zp.RecordCount = c.Recs
+		zp.SetRecords(raw, 0)
+		if zp.Status != pack.ZIPPED {
+			return pbt.Fail("harness: batch of %d bytes was not compressed", len(raw))
+		}
+		bs[g].enc = append([]byte(nil), pack.ToBytesPack(zp)...)
+	}
+	errs := make(chan error, c.G)
+	var wg sync.WaitGroup
+	var gate atomic.Int32
+	for g := range bs {
+		wg.Add(1)
+		go func(g int) {
+			defer wg.Done()
+			for gate.Load() == 0 {
+				runtime.Gosched()
+			}
+			for round := 0; round < c.Rounds; round++ {
+				var recs []*pack.LogSinkPack
+				var pv interface{}
+				func() {
+					defer func() { pv = recover() }()
+					recs = pack.ToPack(append([]byte(nil), bs[g].enc...)).(*pack.LogSinkZipPack).GetRecords()
+				}()
+				if pv != nil {
+					errs <- fmt.Errorf("receiver %d round %d: decoding its own valid %d-byte batch failed while %d other receivers were decoding theirs: %v", g, round, len(bs[g].enc), c.G-1, pv)
+					return
+				}
+				if len(recs) != len(bs[g].want) {
+					errs <- fmt.Errorf("receiver %d round %d: %d records decoded, the batch holds %d", g, round, len(recs), len(bs[g].want))
+					return
+				}
+				for i, r := range recs {
+					if r.Content != bs[g].want[i] {
+						got := r.Content
+						if len(got) > 40 {
+							got = got[:40] + "…"
+						}
+						errs <- fmt.Errorf("receiver %d round %d: record %d of its batch decodes with content %q; the batch holds %q there - these bytes are not in its input (%d other receivers decoding at the same time)", g, round, i, got, bs[g].want[i][:20]+"…", c.G-1)
+						return
+					}
+				}
+			}
+		}(g)
+	}
+	gate.Store(1)
+	wg.Wait()
+	close(errs)
+	for e := range errs {
+		return &pbt.Result{Err: e}
+	}
+	return &pbt.Result{NT: c.G >= 2, Classes: []string{fmt.Sprintf("receivers=%d", c.G)}}
+}
+
+var specBatches = pbt.Register(pbt.Spec[BatchCase]{
+	Prop: "C04", Name: "concurrent-batch-decodes",
+	Rule:  "2-12 receivers, each with its own compressed log batch (20-300 records of 10-400 content bytes, every record tagged with receiver and index), decode their batch 5-40 times through ToPack + GetRecords at the same time: every decode must succeed and yield exactly the records of that receiver's batch (bytes of another receiver's batch are bytes that are not in the input); non-trivial = every case; distinct by case",
+	Quick: 30, Thorough: 2000,
+	Draw: func(t *rapid.T) BatchCase {
+		return BatchCase{G: rapid.IntRange(2, 12).Draw(t, "g"), Recs: rapid.SampledFrom([]int{20, 60, 150, 300}).Draw(t, "recs"), Line: rapid.SampledFrom([]int{10, 80, 400}).Draw(t, "line"),
+			Rounds: rapid.IntRange(5, 40).Draw(t, "rounds"), Seed: rapid.Uint64().Draw(t, "seed")}
+	},
+	Run: runBatches,
+})
+
+func TestConcurrentBatchDecodes(t *testing.T) { specBatches.Check(t) }
